@@ -747,6 +747,53 @@ Definition spec_static (e : env) (regs : list reg) (path : text) : option (list 
   | None => (None, None)
   end.
 
+(* when a helper has to produce a URL at all: the route exists, every placeholder has a value, and every
+   supplied text can be encoded (no lone surrogates, bytes that are UTF-8) *)
+Definition enc_ok (v : pval) : bool :=
+  match v with PStr t | PNum _ t => forallb valid_scalar t | _ => true end.
+Definition text_ok (v : pval) : bool := match spec_text v with Some _ => true | None => false end.
+Definition kwval_ok (v : kwval) : bool :=
+  match v with KScalar x => text_ok x | KSeq l shown => forallb text_ok l && forallb valid_scalar shown end.
+Definition qval_ok (v : qval) : bool :=
+  match v with QVNone => true | QVScalar x => enc_ok x | QVSeq l => forallb enc_ok l end.
+Definition query_ok (q : option query) : bool :=
+  match q with
+  | None => true
+  | Some (QStr t) => forallb valid_scalar t
+  | Some (QPairs l) => forallb (fun kv : pval * qval => enc_ok (fst kv) && qval_ok (snd kv)) l
+  end.
+Definition anchor_ok (a : option pval) : bool := match a with None => true | Some v => enc_ok v end.
+Definition slots (p : pattern) : list text :=
+  map fst (p_holes p) ++ match star_slot p with Some r => [r] | None => [] end.
+Definition pattern_ok (p : pattern) : bool :=
+  forallb valid_scalar (p_prefix p) && forallb (fun h : text * text => forallb valid_scalar (snd h)) (p_holes p).
+Definition has_key {A} (d : list (text * A)) (k : text) : bool := match assoc k d with Some _ => true | None => false end.
+Definition must_route (e : env) (routes : list (text * pattern)) (name : text) (els : list pval) (o : overrides)
+           (kw : list (text * kwval)) : bool :=
+  match assoc name routes with
+  | None => false
+  | Some p =>
+      forallb valid_scalar (e_script e) && pattern_ok p && forallb (has_key kw) (slots p)
+      && forallb (fun kv : text * kwval => kwval_ok (snd kv)) kw && forallb text_ok els
+      && query_ok (o_query o) && anchor_ok (o_anchor o)
+  end.
+Definition must_resource e routes (names els : list pval) o (vroot : option text)
+           (rn : option (text * text * option (list (text * kwval)))) : bool :=
+  forallb text_ok names
+  && match vroot with Some v => match decode v with Some _ => true | None => false end | None => true end
+  && match rn with
+     | None => forallb valid_scalar (e_script e) && forallb text_ok els && query_ok (o_query o) && anchor_ok (o_anchor o)
+     | Some (rname, rem, rkw) =>
+         must_route e routes rname els o (dupdate [(rem, KSeq names [])] (match rkw with Some k => k | None => [] end))
+     end.
+Definition must_static e routes (regs : list reg) (path : text) o kw : bool :=
+  match find_reg_x regs path with
+  | None => false
+  | Some (sub, RRoute _ rname) => must_route e routes rname [] o (dset static_subpath_key (KScalar (PStr sub)) kw)
+  | Some (sub, RExt _ _) => forallb valid_scalar sub && forallb valid_scalar (e_script e)
+                            && query_ok (o_query o) && anchor_ok (o_anchor o)
+  end.
+
 (* RFC 3986 character classes *)
 Definition unreserved (c : N) : bool := is_alpha c || is_digit c || (c =? 45) || (c =? 46) || (c =? 95) || (c =? 126).
 Definition sub_delim (c : N) : bool := memN c [33; 36; 38; 39; 40; 41; 42; 43; 44; 59; 61].
@@ -844,7 +891,7 @@ Definition put_decoded (r : res text) : val :=
   end.
 
 (* the spec's expectations for one generation case *)
-Definition put_spec (e : env) (o : overrides) (els : option (list pval)) (ext : option text) : val :=
+Definition put_spec (must : bool) (e : env) (o : overrides) (els : option (list pval)) (ext : option text) : val :=
   VL [ (* 0: scheme://authority the overrides ask for (when at least one is given and no _app_url) *)
        match o_app_url o, o_scheme o, o_host o, o_port o with
        | Some _, _, _, _ => VL []
@@ -868,11 +915,13 @@ Definition put_spec (e : env) (o : overrides) (els : option (list pval)) (ext : 
        VT (e_script e);
        (* 5: static asset registered under a URL: that URL (scheme filled in); [""]: registered under a URL but
           the sub-path is outside the specified class *)
-       put_otext ext ].
+       put_otext ext;
+       (* 6: every input is well-formed: a URL has to be produced *)
+       vbool must ].
 
-Definition answer_x (e : env) (o : overrides) (els : option (list pval)) (ext : option text) (u p : res text) : val :=
-  VL [put_res u; put_res p; put_decoded u; put_spec e o els ext].
-Definition answer e o els u p := answer_x e o els None u p.
+Definition answer_x (must : bool) (e : env) (o : overrides) (els : option (list pval)) (ext : option text) (u p : res text) : val :=
+  VL [put_res u; put_res p; put_decoded u; put_spec must e o els ext].
+Definition answer must e o els u p := answer_x must e o els None u p.
 
 Definition all_path_chars (s : text) : bool := forallb path_char s.
 
@@ -885,13 +934,15 @@ Definition run_C17 (v : val) : val :=
         let c := warm_cache w in
         (* the url form is computed first and fills the cache for the path form *)
         let c' := match els with [] => c | _ => warm_step c els end in
-        Some (answer e o (Some els) (route_url c e rs name els o kw) (route_path c' e rs name els o kw))
+        Some (answer (must_route e rs name els o kw) e o (Some els)
+                     (route_url c e rs name els o kw) (route_path c' e rs name els o kw))
     | VL [VI 0%Z; VI 1%Z; e; names; els; o; w] =>
         olet e := get_env e in olet names := get_pvals names in olet els := get_pvals els in
         olet o := get_ov o in olet w := get_list_of get_pvals w in
         let c := warm_cache w in
         let c' := match els with [] => c | _ => warm_step c els end in
-        Some (answer e o (Some els) (resource_url c e names els o) (resource_path c' e names els o))
+        Some (answer (must_resource e [] names els o None None) e o (Some els)
+                     (resource_url c e names els o) (resource_path c' e names els o))
     | VL [VI 0%Z; VI 4%Z; e; rs; names; els; o; w; vroot; rn] =>
         olet e := get_env e in olet rs := get_routes rs in olet names := get_pvals names in olet els := get_pvals els in
         olet o := get_ov o in olet w := get_list_of get_pvals w in olet vroot := get_opt get_text vroot in
@@ -900,13 +951,14 @@ Definition run_C17 (v : val) : val :=
                                      | _ => None end) rn in
         let c := warm_cache w in
         let c' := match els with [] => c | _ => warm_step c els end in
-        Some (answer e o (Some els) (resource_url_x c e rs names els o vroot rn)
+        Some (answer (must_resource e rs names els o vroot rn) e o (Some els) (resource_url_x c e rs names els o vroot rn)
                      (resource_path_x c' e rs names els o vroot rn))
     | VL [VI 0%Z; VI 2%Z; e; rs; regs; VT path; o; kw] =>
         olet e := get_env e in olet rs := get_routes rs in olet regs := get_regs regs in
         olet o := get_ov o in olet kw := get_kw kw in
         let '(els, ext) := spec_static e regs path in
-        Some (answer_x e o els ext (static_url_x e rs regs path o kw) (static_path_x e rs regs path o kw))
+        Some (answer_x (must_static e rs regs path o kw) e o els ext
+                       (static_url_x e rs regs path o kw) (static_path_x e rs regs path o kw))
     | VL [VI 0%Z; VI 3%Z; e; rs; rname; matched; md; gt; els; o; kw; w] =>
         olet e := get_env e in olet rs := get_routes rs in
         olet rname := get_opt get_text rname in olet matched := get_opt get_text matched in
@@ -915,7 +967,11 @@ Definition run_C17 (v : val) : val :=
         let o' := match o_query o with Some _ => o | None => set_query o (QPairs gt) end in
         let c := warm_cache w in
         let c' := match els with [] => c | _ => warm_step c els end in
-        Some (answer e o' (Some els) (current_route_url c e rs rname matched md gt els o kw)
+        let must := match (match rname with Some n => Some n | None => matched end) with
+                    | Some n => must_route e rs n els o' (dupdate md kw)
+                    | None => false
+                    end in
+        Some (answer must e o' (Some els) (current_route_url c e rs rname matched md gt els o kw)
                      (current_route_path c' e rs rname matched md gt els o kw))
     | VL [VI 1%Z; VT u] =>
         (* reference decoder alone *)
